@@ -9,6 +9,19 @@ LEVEL_NOTE_COMMON = ("Trusted: Coq 8.16.1 kernel incl. vm_compute (no native_com
                      "evaluated by the model inside Coq); Go harness and recorded tables of external primitives (Poseidon, float formatting). ")
 
 CHECKS = {
+ "C20": dict(
+   text="Theorems (Properties/C20.v) on an interleaving semantics with a readers-writer lock, for ALL programs, thread counts, call lists and schedules: "
+        "a program whose methods pass the verified checker discipline_ok has no reachable racy state, no runtime fault, no deadlock, and every run is "
+        "linearizable to the sequential map semantics in program order (C20_discipline_sound, C20_program_order); the instance C20_cache / "
+        "C20_cache_all_methods is decided by vm_compute on the lock/event skeleton REGENERATED from loaders/memory_cache.go by a go/ast translator on "
+        "every run (it aborts on any construct it does not know); C20_pure: package variables of loaders/merklize are written only by the setters and no "
+        "Merklizer/documentLoader method assigns a receiver field (translator tables). Partial: the Go memory model, races inside dependencies and the "
+        "scheduler are not modelled; they are searched on every run by a race-instrumented stress program (2-64 goroutines, shared loader/cache/merklizer, "
+        "cold/warm/expiring cache) whose per-goroutine results are compared with a sequential oracle, and Get/Set hand-over cases are evaluated in Coq.",
+   note="Translator (harness/c20/translate.go, go/parser) is trusted to emit the skeleton of the code it reads; on failure it overwrites the generated file with an "
+        "ill-typed term so a stale skeleton cannot be used. The race detector of the Go toolchain is used for the search only.",
+   technique="Coq proof (interleaving semantics, verified lock-discipline checker) over a skeleton regenerated from source by a translator + race-detector stress search",
+   design="5 C20"),
  "C04": dict(
    text="Theorems (Properties/C04.v) over the executable model of the value-encoding code, for every hasher, lexical form and odd modulus p>=3: "
         "integer types accepted exactly in range and encoded as v / p+v without reduction, injective per type, spelling-independent; booleans; "
